@@ -42,6 +42,23 @@ def wide_spec():
             "tags": [{"name": t, "description": "tag " + t} for t in tags], "paths": paths, "definitions": defs}
 
 
+def media_spec():
+    """every media type family the generator knows a serializer name for, and media types matched by more
+    than one of its patterns, as consumes / produces of several operations and of the document"""
+    menu = ["application/json", "application/x-yaml", "application/xml", "text/xml", "text/plain", "text/html", "text/csv", "text/markdown",
+            "application/octet-stream", "application/x-tar", "application/gzip", "application/x-gzip", "application/x-tar+gzip", "application/zip",
+            "application/vnd.xml+json", "application/vnd.api+json", "application/x-protobuf", "application/pdf", "image/png", "audio/mpeg",
+            "application/javascript", "text/javascript", "application/x-thrift", "application/vnd.yaml+json", "text/x-markdown+html"]
+    paths = {}
+    for i in range(6):
+        cons = [menu[(i * 4 + k) % len(menu)] for k in range(6)]
+        prod = [menu[(i * 5 + k + 3) % len(menu)] for k in range(6)]
+        paths["/m%d" % i] = {"post": {"operationId": "media%d" % i, "consumes": cons, "produces": prod,
+                                      "parameters": [{"name": "body", "in": "body", "schema": {"type": "string", "format": "binary"}}],
+                                      "responses": {"200": {"description": "ok", "schema": {"type": "string", "format": "binary"}}}}}
+    return {"swagger": "2.0", "info": {"title": "media", "version": "1"}, "consumes": menu[:8], "produces": menu[8:16], "paths": paths}
+
+
 def check(run, replay=None):
     quick = run.tier == "quick"
     mc = run.tlc("Determinism", "MCDeterminism", workers=4, timeout=600)
@@ -57,7 +74,8 @@ def check(run, replay=None):
     fx = os.path.join(REPO, "fixtures")
     todo = os.path.join(fx, "codegen", "todolist.allparams.yml")
     gens = []
-    for name, spec in (("wide", wide), ("todolist", todo)):
+    media = os.path.join(work, "media.json"); json.dump(media_spec(), open(media, "w"))
+    for name, spec in (("wide", wide), ("todolist", todo), ("media", media)):
         for cmd in ("server", "client", "cli"):
             gens.append(dict(id="generate %s %s" % (cmd, name), args=["generate", cmd, "-f", spec, "-t", "{T}", "--name", "verif"], output="{T}", lib=cmd, spec=spec))
         gens.append(dict(id="generate model %s" % name, args=["generate", "model", "-f", spec, "-t", "{T}"], output="{T}", lib="model", spec=spec))
@@ -77,7 +95,7 @@ def check(run, replay=None):
     nseq = 8 if quick else 40
     conc = 4 if quick else 8
     if quick:
-        gens = [g for g in gens if "wide" in g["id"] or "server" in g["id"]]
+        gens = [g for g in gens if "wide" in g["id"] or "server" in g["id"] or g["id"] == "generate client media"]
         others = [o for o in others if "classification" not in o["id"]]
     import concurrent.futures
     # the sequential repetitions of different jobs are independent: one driver process per group of jobs
